@@ -144,8 +144,9 @@ func (t *TCCResourceManager) BranchCommit(ctx context.Context, branchResource rm
 	tm.SetBusinessActionContext(ctx, businessActionContext)
 
 	_, err := tccResource.TwoPhaseAction.Commit(ctx, businessActionContext)
-	if errors.Is(err, fence.ErrPhaseAlreadyApplied) {
-		// the fence driver refused the transaction because the commit has been applied before: done
+	if err != nil && (errors.Is(err, fence.ErrPhaseAlreadyApplied) || tm.IsFenceNothingToDo(ctx)) {
+		// the fence driver refused the transaction because the commit has been applied before: done. (The context
+		// of the delivery knows it too: the method may report the refusal as a text, or from behind an RPC.)
 		return branch.BranchStatusPhasetwoCommitted, nil
 	}
 	if err != nil {
@@ -227,7 +228,7 @@ func (t *TCCResourceManager) BranchRollback(ctx context.Context, branchResource 
 	tm.SetBusinessActionContext(ctx, businessActionContext)
 
 	_, err := tccResource.TwoPhaseAction.Rollback(ctx, businessActionContext)
-	if errors.Is(err, fence.ErrPhaseAlreadyApplied) {
+	if err != nil && (errors.Is(err, fence.ErrPhaseAlreadyApplied) || tm.IsFenceNothingToDo(ctx)) {
 		// the fence driver refused the transaction because the rollback has been applied before, or the try never ran: done
 		return branch.BranchStatusPhasetwoRollbacked, nil
 	}
